@@ -309,6 +309,43 @@ Theorem c15_trigger_fault_fatal :
 Proof. exact trigger_fault_fatal. Qed.
 Print Assumptions c15_trigger_fault_fatal.
 
+Theorem c15_detect_flow_uuid_conflict_partial :
+  forall fuel wb dm d t0 p r s bt u name old,
+    compile fuel wb dm = Ok d ->
+  nth_error (rows_of wb t0) p = Some r -> r_type r = TStartFlow ->
+  evaluated_at fuel wb dm t0 p s bt ->
+  render (f_ctx s) (r_main r) = Ok name ->
+  uget (uu_flows (f_uu s)) name = Some old -> utruthy old = true ->
+  u <> [] -> uval_eqb (UGiven u) old = false ->
+  compile fuel (set_row wb t0 p (set_objid r u)) dm = Err EUuidConflict.
+Proof. exact detect_flow_uuid_conflict_partial. Qed.
+Print Assumptions c15_detect_flow_uuid_conflict_partial.
+
+Theorem c15_detect_missing_flow_sheet :
+  forall fuel wb dm rows st fpre d fpost st',
+    wb_get wb s_content_index = Some (SIndex rows) ->
+  process_index fuel (erase wb) dm rows is0 = Ok st ->
+  is_flows st = fpre ++ d :: fpost ->
+  foldM (fun s0 d0 => add_template (erase wb) s0 (fd_sheet d0) (fd_argdefs d0) false) fpre st = Ok st' ->
+  aget (is_templates st') (fd_sheet d) = None ->
+  wb_get wb (fd_sheet d) = None ->
+  compile fuel wb dm = Err ESheetNotFound.
+Proof. exact detect_missing_flow_sheet. Qed.
+Print Assumptions c15_detect_missing_flow_sheet.
+
+Theorem c15_detect_template_argument_in_data_row :
+  forall fuel wb dm st pre d post cs ds c defs a more,
+    index_phase fuel (erase wb) dm = Ok st ->
+  is_flows st = pre ++ d :: post ->
+  foldM (flow_def_step cls (fun c => c) (visit_of wb) fuel st) pre (mkCS uu0 [] 0) = Ok cs ->
+  fd_dsheet d <> [] -> fd_drow d <> [] ->
+  aget (is_data st) (fd_dsheet d) = Some ds -> aget (ds_rows ds) (fd_drow d) = Some c ->
+  aget (is_templates st) (fd_sheet d) = Some defs -> defs = a :: more ->
+  chas c (ad_name a) = true ->
+  compile fuel wb dm = Err EArgDouble.
+Proof. exact detect_template_argument_in_data_row. Qed.
+Print Assumptions c15_detect_template_argument_in_data_row.
+
 (* ---- non-vacuity: a concrete workbook (CliExamples.v) satisfying the hypotheses *)
 From Coq Require Import String.
 Local Open Scope string_scope.
@@ -484,3 +521,25 @@ Example c15_surrogate_not_roundtrip :
   parse_json (serialize (JStr [55357; 56832]%N)) <> Some (JStr [55357; 56832]%N).
 Proof. exact surrogate_not_roundtrip. Qed.
 Print Assumptions c15_surrogate_not_roundtrip.
+
+Example c15_detect_flow_uuid_conflict_nonvacuous :
+    evaluated_at ex_fuel ex_wb None A 6 (trap_state (ev A 6)) (trap_bt (ev A 6)) /\
+  uget (uu_flows (f_uu (trap_state (ev A 6)))) (S_ "child") = Some (UGiven (S_ "33333333-3333-4333-8333-333333333333")) /\
+  compile ex_fuel (set_row ex_wb A 6 (set_objid (nth 6 flowA_rows (row_ TSend [] [] [])) (S_ "44444444-4444-4444-8444-444444444444"))) None
+  = Err EUuidConflict.
+Proof. exact detect_flow_uuid_conflict_nonvacuous. Qed.
+Print Assumptions c15_detect_flow_uuid_conflict_nonvacuous.
+
+Example c15_detect_missing_flow_sheet_nonvacuous :
+    let bad := ix_ ICreateFlow ["no_such_flow_sheet"] in
+  is_ok (process_index ex_fuel (erase (set_index ex_wb (ex_index ++ [bad]))) None (ex_index ++ [bad]) is0) = true /\
+  compile ex_fuel (set_index ex_wb (ex_index ++ [bad])) None = Err ESheetNotFound.
+Proof. exact detect_missing_flow_sheet_nonvacuous. Qed.
+Print Assumptions c15_detect_missing_flow_sheet_nonvacuous.
+
+Example c15_detect_template_argument_in_data_row_nonvacuous :
+    (* the template of the second flow definition declares an argument called like a column of its data sheet *)
+  let def := mkIx ITemplateDef false [S_ "flowB"] [] [] [] [] [mkAD (S_ "label") (S_ "dflt")] [] OpNone [] in
+  compile ex_fuel (set_index ex_wb (def :: ex_index)) None = Err EArgDouble.
+Proof. exact detect_template_argument_in_data_row_nonvacuous. Qed.
+Print Assumptions c15_detect_template_argument_in_data_row_nonvacuous.
